@@ -206,6 +206,18 @@ CHECKS = {
         'quick': {'shards': 16, 'timeout': 900},
         'thorough': {'shards': 16, 'timeout': 5400},
     },
+    'C15': {
+        'pkg': 'internal/server', 'test': 'TestVerif_C15', 'level': 'exploration',
+        'technique': 'runtime linearizability checking (porcupine) of histories recorded at the client boundary of the real server: handshake(uid, sid) -> key | refused, close, admin changes, against the sequential model get-or-create-with-cap; forced admission rendezvous via hook; cap invariant read at quiescent points',
+        'level_text': 'Whole-system rig with a bbolt user database in a bubble: bursts of 2..32 simultaneous real handshakes over 1..4 (UID, session id) pairs - or all with distinct new session ids for one user - for caps 0..4, interleaved with closures of non-last sessions and with cap/credit/expiry changes; '
+                      'every connection is handshaken individually so each returned key is observed; half of the bursts park all connections between user lookup and session creation (hook) and release them together, and the user manager is wrapped to yield inside AuthoriseNewSession. '
+                      'porcupine checks each per-UID history; keys are checked for uniqueness across (UID, sid); NumSession() <= cap is asserted at every quiescent point.',
+        'level_note': 'Assumes ' + A_RACE + ', ' + A_HARNESS + ' and porcupine v1.3.0. A refused handshake is observed as "no reply by quiescence + 20 virtual seconds". The race with the closing of a user\'s last session is excluded here by an anchor session (it belongs to C17).',
+        'rule': 'case = one history (users, caps, sequence of bursts/closures/admin changes, transport, GOMAXPROCS); distinct = history index; non-trivial = the history contains at least one burst of simultaneous handshakes and was checked by porcupine',
+        'assumptions': [A_RACE, A_HARNESS, 'porcupine v1.3.0'],
+        'quick': {'shards': 16, 'timeout': 900},
+        'thorough': {'shards': 16, 'timeout': 5400},
+    },
 }
 
 NOT_APPLICABLE = {p: 'check not built yet in this round (the design in DESIGN.md section 3 applies; runtime monitoring can decide it)'
